@@ -223,14 +223,14 @@ PROPS['C07'] = dict(
 
 PROPS['C08'] = dict(
     level='other',
-    claim='cancel handling: BaseComponent.is_canceled (exactly the named tasks are reported CANCELED once and the request consumed, others untouched), the executor\'s cancel command (only named uids are passed to cancel_task, bystanders keep their entry and are not finished), Popen.cancel_task (finishes only a task the executor still owns, once, as CANCELED; everything else untouched) are verified for every state; one recorded finding: a placed task canceled at the executor intake is not released',
+    claim='cancel handling: BaseComponent.is_canceled (exactly the named tasks are reported CANCELED once and the request consumed, others untouched), the executor\'s cancel command (only named uids are passed to cancel_task, bystanders keep their entry and are not finished), Popen.cancel_task (finishes only a task the executor still owns, once, as CANCELED; everything else untouched) are verified for every state; a placed task canceled at the executor intake is released once (AgentExecutingComponent.is_canceled, defect repaired)',
     note='the raptor backlog branch of the scheduler control_cb is under contract (control_cb#raptor-cancel: named tasks leave their backlog and are canceled, bystanders stay); end-to-end composition across components is assumed (message transport)',
     assumptions=['A2', 'A4', 'A5', 'A7', 'A9', 'A11'],
-    explanation='frame contracts at each component + recorded finding (known_findings.json)',
+    explanation='frame contracts at each component; the finding recorded earlier (intake cancel leaks the placement) is repaired',
     clauses={'named task met later is canceled instead of processed': 'P',
              'kill running process, resources freed exactly once, ends CANCELED unless finished': 'P (operation level)',
              'bystanders unaffected at the executor': 'P',
-             'placed task canceled at the executor intake releases its placement': 'KNOWN FINDING (open)',
+             'placed task canceled at the executor intake releases its placement': 'P (AgentExecutingComponent.is_canceled; genuine defect repaired by fix 27e59b0)',
              'wait pool removal (scheduler): named waiting tasks leave the pool and are canceled once, bystanders stay': 'P',
              'raptor backlog (scheduler control_cb): named parked tasks are canceled and leave the backlog, bystanders stay': 'P',
              'a late cancel at launch is acted on only after the task is queued for the watcher (Popen._launch_task)': 'P'})
